@@ -56,11 +56,11 @@ Proof. apply cx_eq; cbn; ring. Qed.
 (* sinusoid -> phasor -> time gives back the same sinusoid *)
 Theorem phasor_time_roundtrip f A c s C S :
   time_of (phasor_of std_offs f A c s) C S = sinusoid f A c s C S.
-Proof. destruct f; cbn; ring. Qed.
+Proof. destruct f; unfold time_of, sinusoid, phasor_of, std_offs, qturn; cbn; ring. Qed.
 (* |P| = A when (c, s) is on the unit circle *)
 Theorem phasor_abs2 f A c s : c * c + s * s = 1 ->
   let P := phasor_of std_offs f A c s in cre P * cre P + cim P * cim P = A * A.
-Proof. intros H. destruct f; cbn.
+Proof. intros H. destruct f; unfold phasor_of, std_offs, qturn; cbn.
   - transitivity (A * A * (c * c + s * s)); [ring | rewrite H; ring].
   - transitivity (A * A * (c * c + s * s)); [ring | rewrite H; ring]. Qed.
 
